@@ -33,7 +33,8 @@ Definition seg_ok (cs : cseg) : Prop :=
   NoDup (map cp_idx (cs_pages cs)) /\
   (forall i, In i (map cp_idx (cs_pages cs)) <-> 0 < i /\ exists c, In (i, c) (used_spans sg)) /\
   (forall cp, In cp (cs_pages cs) -> page_ok base (get (entries sg) (cp_idx cp)) cp) /\
-  (kind sg = SegNormal -> forall i c, In (i, c) (used_spans sg) -> c <= MI_MAX_SLICE_OFFSET_COUNT + 1).
+  (kind sg = SegNormal -> forall i c, In (i, c) (used_spans sg) -> c <= MI_MAX_SLICE_OFFSET_COUNT + 1) /\
+  (kind sg = SegHuge -> forall cp, In cp (cs_pages cs) -> reserved (cp_page cp) <= 1).
 
 (* segments occupy pairwise disjoint address ranges (the OS layer's contract) *)
 Definition apart (m : mem) : Prop :=
